@@ -354,7 +354,7 @@ Proof.
   unfold rerender in *. now apply parse_tokens_to_line.
 Qed.
 
-(** * Lines without positional parameters: the pass is exactly the round trip *)
+(** * Lines without positional parameters are left alone by the script path's pass *)
 Lemma expand_args_in_tokens_id toks args :
   existsb needs_args toks = false -> expand_args_in_tokens toks args = XOk toks.
 Proof.
@@ -363,16 +363,16 @@ Proof.
   cbn [expand_args_in_tokens]. rewrite H1, (IH H2). reflexivity.
 Qed.
 
-Theorem expand_args_rerender l args : no_positional l = true -> expand_args l args = XOk (rerender l).
-Proof.
-  unfold no_positional, expand_args, rerender. intros H. apply negb_true_false in H.
-  now rewrite expand_args_in_tokens_id.
-Qed.
+Theorem expand_args_id l args : no_positional l = true -> expand_args l args = XOk l.
+Proof. unfold no_positional, expand_args. intros H. now rewrite H. Qed.
 
-Theorem expand_args_fixed_id l args : no_positional l = true -> expand_args_fixed l args = XOk l.
-Proof.
-  unfold no_positional, expand_args_fixed. intros H. apply negb_true_false in H. now rewrite H.
-Qed.
+(** with a positional parameter the line is tokenized, substituted and re-rendered *)
+Theorem expand_args_positional l args : no_positional l = false ->
+  expand_args l args =
+  match expand_args_in_tokens (parse_line l) args with
+  | XOk toks => XOk (tokens_to_line toks) | XPanic => XPanic | XFuel => XFuel
+  end.
+Proof. unfold no_positional, expand_args. intros H. now rewrite H. Qed.
 
 (** * The C01 domain: a plain command word and quoted arguments *)
 Lemma plain_uword w : plain_word w = true -> uword w = true.
